@@ -12,13 +12,13 @@ Theorem C06_params_layout :
   entry_header_size = 4 + 8 + 4 /\
   file_header_size = len_N wal_magic + 2 + 1 /\
   length wal_magic = 4%nat /\ bytes wal_magic /\ wal_version < 65536 /\ checksum_type < 256 /\
-  0 < max_payload /\ max_payload < 2 ^ 32 /\
+  0 < max_payload /\ max_payload < 256 ^ N.of_nat 4 /\
   envelope_marker < 128.
 Proof. vm_compute. repeat split; try reflexivity; repeat constructor. Qed.
 Print Assumptions C06_params_layout.
 
 (* the header the model writes is the header ReadAll accepts, with the regenerated constants *)
 Theorem C06_params_header_accepted : forall crc classify,
-  read_all crc classify (file_header ++ []) = FOk [] 0.
+  read_all crc classify max_payload (file_header ++ []) = FOk [] 0.
 Proof. intros. vm_compute. reflexivity. Qed.
 Print Assumptions C06_params_header_accepted.
